@@ -2,6 +2,7 @@ package checks
 
 import (
 	"fmt"
+	"sort"
 
 	"verif/internal/sem"
 	"verif/internal/sg"
@@ -25,6 +26,14 @@ func c19(ctx *Ctx) (*Outcome, error) {
 		}
 		cases = append(cases, c)
 	}
+	for i := 0; i < ctx.N(32, 160); i++ {
+		c := internalNameCase(i, sg.NewRng(ctx.Seed, fmt.Sprintf("C19-internal-%d", i)))
+		if i%2 == 0 {
+			c.Args = append(c.Args, "--extra-imports")
+		}
+		cases = append(cases, c)
+	}
+	cases = append(cases, c19Shapes(ctx)...)
 	run := func(race bool, cs []*sem.Case) (*sem.Report, error) {
 		return sem.RunTotal(&sem.TotalConfig{Prop: "C19", Tier: ctx.Tier, Seed: ctx.Seed, Cases: cs, Env: ctx.Env, Race: race, PerProg: ctx.N(700, 1500)})
 	}
@@ -45,4 +54,66 @@ func c19(ctx *Ctx) (*Outcome, error) {
 		8000, []string{"a BEGIN without END in the event log is attributed to that command (child restarted)", "only types with a generated method are judged for 'unchanged on error' (plain encoding/json may fill fields before failing)"})
 	o.Coverage["race_detector_executions"] = rr.Decided
 	return o, nil
+}
+
+// c19Shapes: small schemas in which every kind of declaration that gets a generated unmarshaler occurs on its own
+// (so that the per-program budget reaches every type x prior x input combination): anyOf elements of map / array /
+// primitive / null / object type, typed additionalProperties next to properties, enums, nested and referenced.
+func c19Shapes(ctx *Ctx) []*sem.Case {
+	branch := map[string]func() *sg.Schema{
+		"map-int": func() *sg.Schema {
+			return &sg.Schema{Types: []string{"object"}, AddProps: &sg.Schema{Types: []string{"integer"}}}
+		},
+		"map-string": func() *sg.Schema {
+			return &sg.Schema{Types: []string{"object"}, AddProps: &sg.Schema{Types: []string{"string"}, MinLen: 1}}
+		},
+		"map-object": func() *sg.Schema {
+			return &sg.Schema{Types: []string{"object"}, AddProps: &sg.Schema{Types: []string{"object"}, Props: []sg.Prop{{Name: "q", S: &sg.Schema{Types: []string{"integer"}}}}, Required: []string{"q"}}}
+		},
+		"array-int": func() *sg.Schema {
+			return &sg.Schema{Types: []string{"array"}, Items: &sg.Schema{Types: []string{"integer"}}, MinItems: 1}
+		},
+		"string":  func() *sg.Schema { return &sg.Schema{Types: []string{"string"}, MinLen: 2} },
+		"integer": func() *sg.Schema { return &sg.Schema{Types: []string{"integer"}, Min: sg.Fp(1)} },
+		"null":    func() *sg.Schema { return &sg.Schema{Types: []string{"null"}} },
+		"object": func() *sg.Schema {
+			return &sg.Schema{Types: []string{"object"}, Props: []sg.Prop{{Name: "name", S: &sg.Schema{Types: []string{"string"}, MinLen: 1}}}, Required: []string{"name"}}
+		},
+		"object-addprops": func() *sg.Schema {
+			return &sg.Schema{Types: []string{"object"}, Props: []sg.Prop{{Name: "name", S: &sg.Schema{Types: []string{"string"}}}}, AddProps: &sg.Schema{Types: []string{"integer"}}}
+		},
+		"enum": func() *sg.Schema { return &sg.Schema{Types: []string{"string"}, HasEnum: true, Enum: []any{"a", "b"}} },
+	}
+	var names []string
+	for k := range branch {
+		names = append(names, k)
+	}
+	sort.Strings(names)
+	var out []*sem.Case
+	for ai, a := range names {
+		for bi, b := range names {
+			if bi < ai || (ai+bi)%ctx.N(3, 1) != 0 {
+				continue
+			}
+			for pos := 0; pos < 3; pos++ {
+				comp := &sg.Schema{AnyOf: []*sg.Schema{branch[a](), branch[b]()}}
+				root := &sg.Schema{Types: []string{"object"}}
+				switch pos {
+				case 0:
+					root.Props = []sg.Prop{{Name: "p", S: comp}}
+				case 1:
+					root.Defs = []sg.Prop{{Name: "Comp", S: comp}}
+					root.Props = []sg.Prop{{Name: "p", S: &sg.Schema{Ref: "#/$defs/Comp", Target: comp}}, {Name: "list", S: &sg.Schema{Types: []string{"array"}, Items: &sg.Schema{Ref: "#/$defs/Comp", Target: comp}}}}
+				case 2:
+					root.Props = []sg.Prop{{Name: "outer", S: &sg.Schema{Types: []string{"object"}, Props: []sg.Prop{{Name: "p", S: comp}}, Required: []string{"p"}}}}
+				}
+				c := &sem.Case{Root: root, Sig: fmt.Sprintf("shape/%s+%s@%d", a, b, pos)}
+				if (ai+bi+pos)%2 == 0 {
+					c.Args = []string{"--extra-imports"}
+				}
+				out = append(out, c)
+			}
+		}
+	}
+	return out
 }
